@@ -16,7 +16,7 @@ EXPLANATION = (
     'generator, so they see the same set.  Restore\'s separate enumerator is judged under '
     'C20/C08.')
 ASSUMPTIONS = ['a trash entry is the pair files/N + info/N.trashinfo (spec)']
-MINIMUM = {'R09.1': 6, 'R09.2': 4, 'R09.3': 3, 'R09.4': 3, 'R09.5': 3}
+MINIMUM = {'R09.1': 6, 'R09.2': 4, 'R09.3': 3, 'R09.4': 3, 'R09.5': 3, 'R09.6': 4}
 SUFFIX = '.trashinfo'
 
 
@@ -27,6 +27,22 @@ def suffix_guarded(b, node, entry_term):
         if isinstance(c2, MCall) and c2.name == 'endswith' and p2 and c2.args and \
                 is_const(strip(c2.args[0]), SUFFIX):
             return True
+    return False
+
+
+def degenerate_name_test(c):
+    """A test that excludes only the names whose payload name would be '', '.' or
+    '..' ('.trashinfo', '..trashinfo', '...trashinfo')."""
+    c = strip(c)
+    if isinstance(c, Cmp) and c.op in ('in', 'not in', '==', '!='):
+        consts = set()
+        for x in walk(c.right):
+            if isinstance(x, Const) and isinstance(x.value, str):
+                consts.add(x.value)
+            if isinstance(x, Const) and isinstance(x.value, tuple):
+                consts |= set(x.value)
+        return bool(consts) and (consts <= {'', '.', '..'} or
+                                 consts <= {'.trashinfo', '..trashinfo', '...trashinfo'})
     return False
 
 
@@ -64,6 +80,51 @@ def check(ctx):
                    suffix_guarded(b, e, path), node=e,
                    message='%s reads info/ entries without testing the ".trashinfo" suffix'
                            % cmd)
+    # ---- R09.6 between listing info/ and reading an entry only the suffix is tested
+    for cmd in ('list', 'restore', 'rm', 'empty'):
+        bb = ctx.graph(cmd)
+        gg = bb.g
+        seen = set()
+        for e in bb.effects('OPEN_READ'):
+            path = e.data['roles']['path']
+            if cid(path) in seen:
+                continue
+            seen.add(cid(path))
+            names = set()
+            for a in flat(path):
+                for x in walk(a):
+                    if isinstance(x, Elem) and is_call(strip(x.container), 'os.listdir'):
+                        names.add(cid(x))
+            extra = []
+            its = [i for i in bb.nodes('iteration') if any(
+                isinstance(v, Elem) and cid(v) in names
+                for v in flat(i.data.get('value')) if i.data.get('value') is not None)]
+            heads = [p_ for i in its for p_, l in gg.pred[i.id] if gg.n(p_).kind == 'loop']
+            back = gg.reachable_from(e.id, forward=False, blocked=heads)
+            its = [i for i in its if i.id in back]
+            fwd = gg.reachable_from([i.id for i in its], blocked=heads) if its else set()
+            for n in bb.nodes('assume'):
+                if n.id not in back or n.id not in fwd:
+                    continue
+                c2, p2 = unwrap_not(n.data['cond'], n.data['pol'])
+                if not contains(c2, lambda x: cid(x) in names):
+                    continue
+                if contains(c2, lambda x: isinstance(x, Call) and x.fn in ('open', 'io.open')):
+                    continue      # a test on the content read, not on the name
+                if isinstance(c2, MCall) and c2.name == 'endswith' and c2.args and \
+                        is_const(strip(c2.args[0]), SUFFIX):
+                    continue
+                if isinstance(c2, Cmp) and c2.op == '==' and is_const(strip(c2.right),
+                                                                     'trashinfo', 'non_trashinfo'):
+                    continue
+                if degenerate_name_test(c2):
+                    continue
+                extra.append(n)
+            ctx.ob('R09.6', '%s: every name in info/ ending in ".trashinfo" is an entry (no '
+                            'further filter on the name)' % cmd, not extra, node=e,
+                   message='%s skips entries of info/ by %s: trashed files with such names '
+                           '(e.g. dot-files) silently disappear from %s'
+                           % (cmd, extra[0].data['test_src'] if extra else '', cmd))
     # ---- R09.2
     b = ctx.graph('list')
     g = b.g
